@@ -58,6 +58,52 @@ type failingReader struct {
 	left int
 }
 
+// barrierReader serves `good` bytes, then every Read waits until `want` readers are waiting (or 300 ms) and fails
+type barrierReader struct {
+	mu      sync.Mutex
+	r       io.Reader
+	good    int
+	want    int
+	waiting int
+	release chan struct{}
+}
+
+func (b *barrierReader) Read(p []byte) (int, error) {
+	b.mu.Lock()
+	if b.good >= len(p) {
+		b.good -= len(p)
+		n, err := b.r.Read(p)
+		b.mu.Unlock()
+		return n, err
+	}
+	if b.release == nil {
+		b.release = make(chan struct{})
+		rel := b.release
+		go func() {
+			time.Sleep(300 * time.Millisecond)
+			b.mu.Lock()
+			select {
+			case <-rel:
+			default:
+				close(rel)
+			}
+			b.mu.Unlock()
+		}()
+	}
+	b.waiting++
+	rel := b.release
+	if b.waiting >= b.want {
+		select {
+		case <-rel:
+		default:
+			close(rel)
+		}
+	}
+	b.mu.Unlock()
+	<-rel
+	return 0, errors.New("entropy source failed")
+}
+
 func (f *failingReader) Read(p []byte) (int, error) {
 	f.mu.Lock()
 	defer f.mu.Unlock()
@@ -120,7 +166,7 @@ func checkPreParams(r *Run, what string, pp *ecdsakeygen.LocalPreParams) {
 }
 
 func runC19(r *Run, rng *rand.Rand, thorough bool) {
-	r.Rule = "the safe-prime generator is called for bit lengths {6,7,8,9,10,12,16,24,32,48,64} (thorough: every length 6..64 and 128/256/512), 1-3 primes, concurrency 1-8, each call under a watchdog; cancellation at several instants and a failing entropy source with goroutine counts before/after; samplers on bounds 1,2,3,…,40, prime powers and 2048-bit bounds; the structure of the vendored pre-parameters (outputs of the library's generator) and, in the thorough tier, of a freshly generated full-size set; non-trivial = one generator call; direct assertions: shape of (q,p), promptness, no goroutine left, ranges, algebra of h1/h2"
+	r.Rule = "the safe-prime generator is called for bit lengths {6,7,8,9,10,12,16,24,32,48,64} (thorough: every length 6..64 and 128/256/512), 1-3 primes, concurrency 1-8, each call under a watchdog; cancellation at several instants and a failing entropy source (after k bytes; and failing all workers at once for several (primes, workers) shapes) with goroutine counts before/after; samplers on bounds 1,2,3,…,40, prime powers and 2048-bit bounds; the structure of the vendored pre-parameters (outputs of the library's generator) and, in the thorough tier, of a freshly generated full-size set; non-trivial = one generator call; direct assertions: shape of (q,p), promptness, no goroutine left, ranges, algebra of h1/h2"
 	base := runtime.NumGoroutine()
 	lens := []int{6, 7, 8, 9, 10, 12, 16, 24, 32, 48, 64}
 	reps := 3
@@ -198,6 +244,24 @@ func runC19(r *Run, rng *rand.Rand, thorough bool) {
 		r.Assert(ok && err != nil, "common.GetRandomSafePrimesConcurrent/entropy-failure", "stops-with-error-when-entropy-source-fails", func() string { return fmt.Sprint(n, ok, err) })
 		left := goroutinesSettle(base, 3*time.Second)
 		r.Assert(left <= base, "common.GetRandomSafePrimesConcurrent/entropy-goroutines", "no-goroutine-left-behind", func() string { return fmt.Sprint(n, base, left) })
+	}
+	// … failing for every worker at once: the source serves `good` bytes, then holds each Read until `conc` readers are
+	// inside (or 300 ms have passed) and fails them all; for every shape of (primes asked, workers)
+	for _, sh := range [][3]int{{1, 4, 0}, {1, 8, 64}, {2, 8, 0}, {2, 3, 0}, {3, 2, 0}, {1, 2, 300}} {
+		br := &barrierReader{r: newLockedRand(rng.Int63()), good: sh[2], want: sh[1]}
+		var err error
+		ok := within(15*time.Second, func() {
+			_, err = common.GetRandomSafePrimesConcurrent(context.Background(), 256, sh[0], sh[1], br)
+		})
+		r.Evals++
+		r.Assert(ok && err != nil, "common.GetRandomSafePrimesConcurrent/entropy-failure-all-workers", "stops-with-error-when-entropy-source-fails", func() string {
+			return fmt.Sprintf("numPrimes=%d concurrency=%d good-bytes=%d: returned=%v err=%v", sh[0], sh[1], sh[2], ok, err)
+		})
+		left := goroutinesSettle(base, 3*time.Second)
+		r.Assert(left <= base, "common.GetRandomSafePrimesConcurrent/entropy-goroutines", "no-goroutine-left-behind", func() string { return fmt.Sprint(sh, base, left) })
+		if !ok {
+			break // the stuck workers would disturb the goroutine counts below
+		}
 	}
 	// samplers
 	bounds := []*big.Int{}
